@@ -225,10 +225,13 @@ class CF1D(Model):
         ydim, xdim = e['ydim'], e['xdim']
         variables = {}
         if e['bounds'] != 'none':
-            lat_attrs['bounds'] = lat_name + '_bnds'
-            lon_attrs['bounds'] = lon_name + '_bnds'
-            variables[lat_name + '_bnds'] = xarray.DataArray(self.lat_bounds, dims=[ydim, 'nv'])
-            variables[lon_name + '_bnds'] = xarray.DataArray(self.lon_bounds, dims=[xdim, 'nv'])
+            axes = e.get('bounds_axes', 'both')
+            if axes in ('both', 'lat'):
+                lat_attrs['bounds'] = lat_name + '_bnds'
+                variables[lat_name + '_bnds'] = xarray.DataArray(self.lat_bounds, dims=[ydim, 'nv'])
+            if axes in ('both', 'lon'):
+                lon_attrs['bounds'] = lon_name + '_bnds'
+                variables[lon_name + '_bnds'] = xarray.DataArray(self.lon_bounds, dims=[xdim, 'nv'])
         cdt = e.get('coord_dtype', 'float64')
         assert numpy.array_equal(self.lat.astype(cdt), self.lat) and numpy.array_equal(self.lon.astype(cdt), self.lon)
         lat = xarray.DataArray(self.lat.astype(cdt), dims=[ydim], attrs=lat_attrs)
@@ -263,12 +266,24 @@ def make_cf1d(rng, *, ny=None, nx=None, bounds=None, coord_style=None, ident=Non
     lat, lat_edges = _axis(rng, ny, rng.uniform(-40, -10), chance(rng, 0.4), chance(rng, 0.4), quantum)
     lon, lon_edges = _axis(rng, nx, lon_origin(rng), chance(rng, 0.3), chance(rng, 0.4), quantum)
     m.lat, m.lon = lat, lon
-    if bounds == 'none':
+    # which axes carry stored bounds: both (usual), or only one of them (the other is derived from its centres)
+    bounds_axes = 'both'
+    if bounds != 'none' and ny >= 2 and nx >= 2 and chance(rng, 0.15):
+        bounds_axes = pick(rng, ['lat', 'lon'])
+    if bounds == 'none' or bounds_axes == 'lon':
         lat_b = midpoint_bounds(lat.tolist())
-        lon_b = midpoint_bounds(lon.tolist())
     else:
         lat_b = [(float(lat_edges[i]), float(lat_edges[i + 1])) for i in range(ny)]
+    if bounds == 'none' or bounds_axes == 'lat':
+        lon_b = midpoint_bounds(lon.tolist())
+    else:
         lon_b = [(float(lon_edges[i]), float(lon_edges[i + 1])) for i in range(nx)]
+    bounds_rows = 'axis'
+    if bounds != 'none' and chance(rng, 0.3):
+        # every row written (lower, upper) whatever the direction of the axis - the other customary way to write bounds
+        bounds_rows = 'sorted'
+        lat_b = [tuple(sorted(p)) for p in lat_b]
+        lon_b = [tuple(sorted(p)) for p in lon_b]
     m.lat_bounds = numpy.array(lat_b)
     m.lon_bounds = numpy.array(lon_b)
     if coord_style == 'dimcoord':
@@ -282,18 +297,24 @@ def make_cf1d(rng, *, ny=None, nx=None, bounds=None, coord_style=None, ident=Non
                       ydim=ydim, xdim=xdim)
     if coord_dtype != 'float64':
         m.encoding['coord_dtype'] = coord_dtype
+    if bounds_axes != 'both':
+        m.encoding['bounds_axes'] = bounds_axes
+    if bounds_rows != 'axis':
+        m.encoding['bounds_rows'] = bounds_rows
     if ident == 'units':
         m.encoding['lat_units'] = pick(rng, ['degrees_north', 'degree_north', 'degrees_N', 'degreeN'])
         m.encoding['lon_units'] = pick(rng, ['degrees_east', 'degree_E', 'degreesE'])
     m.kinds = {'face': Kind('face', (ydim, xdim), (ny, nx))}
-    m.derived_geometry = bounds == 'none'
+    m.derived_geometry = bounds == 'none' or bounds_axes != 'both'
     for iy in range(ny):
         for ix in range(nx):
             a, b = lon_b[ix]
             c, d = lat_b[iy]
             m.cells.append([(a, c), (b, c), (b, d), (a, d)])
             m.centres.append((float(lon[ix]), float(lat[iy])))
-    m.geometry_names = [lon_name, lat_name] + ([lon_name + '_bnds', lat_name + '_bnds'] if bounds != 'none' else [])
+    m.geometry_names = [lon_name, lat_name]
+    if bounds != 'none':
+        m.geometry_names += [n for n, axis in ((lon_name + '_bnds', 'lon'), (lat_name + '_bnds', 'lat')) if bounds_axes in ('both', axis)]
     m.extras_naming = {'time': ('time', 'time'), 'depth': ('depth', pick(rng, ['depth', 'k']))}
     return m
 
